@@ -864,7 +864,14 @@ class C01(Check):
                     break
             return r
         if kind == "life":
-            hits, f = lifetime_failure(base, variants, r, 40 if tier == "quick" else 200)
+            # the experiment is repeated: whether a later node lands on a dropped address depends
+            # on the allocator's state; a failure found in any repetition is definite
+            hits, f = 0, None
+            for _attempt in range(3):
+                h, f = lifetime_failure(base, variants, r, 40 if tier == "quick" else 200)
+                hits += h
+                if f:
+                    break
             r.count("address_reuse_hits", hits)
             r.keys.append(item)
             if f:
